@@ -36,10 +36,17 @@ type Config struct {
 	Mutate bool `json:"mutate_list,omitempty"`
 	// ONE producer goroutine ("rr") feeds all inputs round-robin (item j of every input before item j+1 of any) and
 	// closes them at the end: the inputs depend on each other — every one of them must be listened to for any to finish.
-	RoundRobin bool     `json:"round_robin,omitempty"`
-	N          int      `json:"n,omitempty"`    // do: number of functions
-	Errs       []int    `json:"errs,omitempty"` // do: 0 = nil error, otherwise the error's id
-	Pairs      [][2]int `json:"pairs,omitempty"`
+	RoundRobin bool `json:"round_robin,omitempty"`
+	// joinsel: channel ARGUMENTS that are nil at run time (indices; their Items are empty).  A nil argument is never
+	// received from; the output must still be closed once the other inputs are drained (LTS: `Cfg.nilIn`).
+	Nils []int `json:"nils,omitempty"`
+	// do: two calls of the SAME generated Do are in flight at once: "nested" (function 0 itself calls the same Do with two
+	// succeeding functions and checks what it gets back) or "concurrent" (a second caller goroutine calls it at the same
+	// time).  Two calls are outside the single-call LTS: observable clauses only.
+	Overlap string   `json:"overlap,omitempty"`
+	N       int      `json:"n,omitempty"`    // do: number of functions
+	Errs    []int    `json:"errs,omitempty"` // do: 0 = nil error, otherwise the error's id
+	Pairs   [][2]int `json:"pairs,omitempty"`
 }
 
 // F is the user function of the fmap scenarios (the Lean driver uses the same one).
@@ -145,6 +152,13 @@ func (c Config) Sexp() string {
 	if c.Slice != nil {
 		b.WriteString(" (slice")
 		for _, p := range c.Slice {
+			b.WriteString(" " + strconv.Itoa(p))
+		}
+		b.WriteString(")")
+	}
+	if len(c.Nils) > 0 {
+		b.WriteString(" (nils")
+		for _, p := range c.Nils {
 			b.WriteString(" " + strconv.Itoa(p))
 		}
 		b.WriteString(")")
@@ -526,6 +540,74 @@ func LongSliceConfigs() []Config {
 				}
 				sl = append(sl, dupAt) // the duplicate is the LAST position
 				out = append(out, Config{Sys: "joinsc", Variant: variant, Caps: caps, Items: mkItems(counts), Slice: sl})
+			}
+		}
+	}
+	return out
+}
+
+// IsNil reports whether argument i of a joinsel configuration is a nil channel.
+func (c Config) IsNil(i int) bool {
+	for _, j := range c.Nils {
+		if j == i {
+			return true
+		}
+	}
+	return false
+}
+
+// NilArgConfigs: the select form with every proper and improper subset of its channel arguments nil (arity 2 and 3;
+// for 5 and 6 arguments: one, two and all-but-one nil), the other inputs with 0..items items, capacities 0..1.
+func NilArgConfigs(items int) []Config {
+	var out []Config
+	for _, variant := range Variants["joinsel"] {
+		n := SelArity(variant)
+		var masks []int
+		if n <= 3 {
+			for m := 1; m < 1<<n; m++ {
+				masks = append(masks, m)
+			}
+		} else {
+			masks = []int{1, 1 << (n - 1), 3, 1<<n - 2}
+		}
+		for _, m := range masks {
+			for k := 0; k <= items; k++ {
+				for cp := 0; cp <= 1; cp++ {
+					counts, caps := make([]int, n), make([]int, n)
+					var nils []int
+					for i := 0; i < n; i++ {
+						if m&(1<<i) != 0 {
+							nils = append(nils, i)
+						} else {
+							counts[i], caps[i] = k, cp
+						}
+					}
+					c := Config{Sys: "joinsel", Variant: variant, Caps: caps, Items: mkItems(counts), Nils: nils}
+					out = append(out, withSpecials(c, func(i, j int) int { return (2*i + 3*j) % 4 }))
+				}
+			}
+		}
+	}
+	return out
+}
+
+// OverlapConfigs: two calls of one generated Do in flight at once.
+func OverlapConfigs() []Config {
+	var out []Config
+	for _, variant := range []string{"Do2", "Do2b", "Do3", "Do3b"} {
+		n := 2
+		if strings.HasPrefix(variant, "Do3") {
+			n = 3
+		}
+		for _, ov := range []string{"nested", "concurrent"} {
+			for mask := 0; mask < 1<<n; mask++ {
+				c := Config{Sys: "do", Variant: variant, N: n, Errs: make([]int, n), Overlap: ov}
+				for i := 0; i < n; i++ {
+					if mask&(1<<i) != 0 {
+						c.Errs[i] = 1 + i
+					}
+				}
+				out = append(out, c)
 			}
 		}
 	}
